@@ -25,7 +25,7 @@ from dsmc.sched import Execution, Explorer
 from dsmc.tables import row, schema
 
 APIS = ["scan", "scan_parallel", "scan_filter", "scan_batches", "iter_records", "row_count"]
-WRITERS = ["append", "append2tx", "delete_file", "replace", "rollback", "failed_commit"]
+WRITERS = ["append", "append2tx", "delete_file", "replace", "append_expire", "delete_current", "rollback", "failed_commit"]
 
 
 def build_template(w: TableWorld) -> None:
@@ -117,6 +117,7 @@ class C02World(TableWorld):
         st = self.state()
         self.v0 = st.md["__file__"]
         self.base_files = st.current_files()
+        self.base_current = st.current_id
         self._rows_cache: Dict[str, List[Tuple]] = {}
 
     def close(self) -> None:
@@ -180,6 +181,14 @@ class C02World(TableWorld):
                     tx.delete_files(["/" + files[-1]])
                     tx.append_data([row(50 + i)])
                     return tx.commit()
+            if wop == "append_expire":
+                # one commit that both supersedes the reader's snapshot and drops it from the metadata
+                with t.new_transaction() as tx:
+                    tx.append_data([row(60 + i)])
+                    tx.expire_snapshots(int(ENV.clock * 1000) + 10_000)
+                    return tx.commit()
+            if wop == "delete_current":
+                return t.snapshot_manager.delete_snapshot(self.base_current)
             if wop == "rollback":
                 tx = t.new_transaction().begin()
                 tx.append_data([row(40 + i)])
